@@ -505,12 +505,29 @@ func specC13(r *hlib.Rng, res *hlib.Result) (string, []string) {
 		_ = dst.ndb.Finalize([]node.Root{r1})
 	}
 	checkApplied := func(what string, wl writelog.WriteLog) string {
+		rootsBefore, _ := dst.ndb.GetRootsForVersion(r2.Version)
 		_, err := rc.Apply(ctx, r1, r2, wl)
 		has := dst.ndb.HasRoot(r2)
 		if err != nil {
 			if has && !r2.Hash.IsEmpty() {
 				return fmt.Sprintf("spec-c13-failed-apply-left-root: %s log %s: Apply failed (%v) but root %s is present", what, logToString(wl), err, r2.Hash)
 			}
+			// nothing at all may have been persisted: the destination version holds exactly the roots
+			// it held before (a log that does not hash to the announced root must not leave the root it
+			// does hash to behind either)
+			rootsAfter, _ := dst.ndb.GetRootsForVersion(r2.Version)
+			show := func(rs []node.Root) string {
+				var l []string
+				for _, x := range rs {
+					l = append(l, fmt.Sprintf("%d:%s", x.Type, x.Hash))
+				}
+				sort.Strings(l)
+				return strings.Join(l, ",")
+			}
+			if show(rootsBefore) != show(rootsAfter) {
+				return fmt.Sprintf("spec-c13-failed-apply-persisted-a-root: %s log %s: Apply failed (%v) but version %d now holds roots [%s], before [%s]", what, logToString(wl), err, r2.Version, show(rootsAfter), show(rootsBefore))
+			}
+			res.Count("spec:c13-failed-apply-persisted-nothing")
 			return ""
 		}
 		if !has {
